@@ -248,6 +248,15 @@ package l1infotreesync
 //@   requires s != nil && s.processor != nil && s.processor.rollupExitTree != nil && s.processor.rollupExitTree.Tree != nil && len(s.processor.rollupExitTree.Tree.zeroHashes) == 33
 //@   ensures[mainnet-has-no-position] (!old(s.processor.halted) && networkID == 0) ==> result1 == nil
 //@   assert call:GetProof arg0 == s.processor.rollupExitTree.Tree && arg2 + 1 == networkID && arg3 == root
+// the local exit root the claim endpoint proves an L2 bridge against (C12): the leaf the rollup exit tree holds for
+// that network (position network-1) *under the rollup exit root asked for* - not a later or earlier verification's
+//@ func (s *L1InfoTreeSync) GetLocalExitRoot
+//@   props C08 C12
+//@   requires s != nil && s.processor != nil && s.processor.rollupExitTree != nil && s.processor.rollupExitTree.Tree != nil
+//@   modifies nothing
+//@   ensures[mainnet-has-no-position] (!old(s.processor.halted) && networkID == 0) ==> result1 != nil
+//@   ensures[the-leaf-of-that-network-under-that-root] (!old(s.processor.halted) && result1 == nil) ==> networkID != 0 && result0 == desc(rhtL(s.processor.rollupExitTree.Tree), rhtR(s.processor.rollupExitTree.Tree), rollupExitRoot, uint32(networkID - 1), 0)
+//@   assert call:GetLeaf arg0 == s.processor.rollupExitTree.Tree && arg2 + 1 == networkID && arg3 == rollupExitRoot
 //@ func (s *L1InfoTreeSync) GetL1InfoTreeMerkleProofFromIndexToRoot
 //@   props C08 C09 C12
 //@   requires s != nil && s.processor != nil && s.processor.l1InfoTree != nil && s.processor.l1InfoTree.Tree != nil && len(s.processor.l1InfoTree.Tree.zeroHashes) == 33
